@@ -912,6 +912,7 @@ def _probes(ctx, E, cap, divuv_ok):
       init = _np_leaves(s0)
       scale = max(float(np.abs(init[f]).max()) for f in ('divergence', 'temperature_variation', 'log_surface_pressure'))
       zscale = float(np.abs(init['vorticity']).max())
+      scale0, zscale0 = scale, zscale
       ra = 'ra' in stack
       dry = cls in ('dry', 'time')
       for k in range(1, K + 1):
@@ -925,6 +926,15 @@ def _probes(ctx, E, cap, divuv_ok):
           break
         sinp = dict(inp, step=k)
         ctx.case((key, ci, k, ctx.seed), nontrivial=True, sample=inp if (ci == 0 and k == 1) else None)
+        # rounding errors are proportional to the magnitudes the step actually handled: on a growing (numerically
+        # unstable: random constants, dt not tuned) trajectory the "to rounding" tolerances follow the running maximum
+        # of the field magnitudes, not the initial one (thorough tier, seed 0: delta_00 drift 9e-5 at step 116 of a run
+        # that had grown by many orders of magnitude)
+        scale = max(scale, max(float(np.abs(lv[f]).max()) for f in ('divergence', 'temperature_variation',
+                                                                     'log_surface_pressure')))
+        zscale = max(zscale, float(np.abs(lv['vorticity']).max()))
+        growth = max(1.0, scale / scale0, zscale / max(zscale0, 1e-300))
+        sinp['growth_of_field_magnitude'] = growth
         worst_off = max(_off(v, keep) for v in lv.values())
         ctx.expect(worst_off == 0.0, key + ':mask', f'coefficients outside the mask / at the clipped wavenumber are not '
                    f'exactly zero after step {k}: max |c| = {worst_off:.3e}', sinp)
@@ -947,7 +957,7 @@ def _probes(ctx, E, cap, divuv_ok):
                      f'sim_time = {float(cur.sim_time)!r} after step {k}, expected t0 + k dt = {tk!r}', sinp)
         if uniform is not None:
           du = float(np.abs(lv['tracers.uniform'] - init['tracers.uniform']).max())
-          ctx.expect(du <= TRACER_TOL * abs(uniform) * E.pe._CONSTANT_NORMALIZATION_FACTOR, key + ':uniform-tracer',
+          ctx.expect(du <= TRACER_TOL * growth * abs(uniform) * E.pe._CONSTANT_NORMALIZATION_FACTOR, key + ':uniform-tracer',
                      f'uniform tracer deviates by {du:.3e} after step {k}', sinp)
 
 
